@@ -25,7 +25,13 @@ MANIFEST = {
     "note": "Proved at ℝ: floating-point rounding is not modelled (the Float run measures it). "
             "Hypotheses: unit direction; leading coefficient a = 0 or |a| >= min_a (inside the band the "
             "code solves the linearised equation by design). Involute (iterative transcendental "
-            "solver) and SurfaceTransformer/SurfaceSimplifier are not modelled: covered by oracle only. ",
+            "solver) is not modelled: covered by oracle only. SurfaceSimplifier/RecursiveSimplifier: "
+            "Model/Solids.lean `simplifyStep`/`simplify`, diffed bit-exactly through harness/solids.cc; "
+            "theorems `simplifyStep_exact`, `simplifyStep_exact_sense`, `simplifyStep_perturbation`, "
+            "`simplify_exact` (exact preservation of the signed surface function up to a positive factor "
+            "whenever the soft comparisons are exact; explicit perturbation and bound for the snapping "
+            "branches; the soft-equal SQ->sphere/cyl/cone branches have no bound uniform in the point: "
+            "known findings of C09). SurfaceTransformer: Model/SurfXform.lean (theorems under C09b).",
 }
 
 AXES = "xyz"
@@ -362,6 +368,15 @@ def run(ctx):
                       f"(first: {diverged[0]['op'][:60]})")
     n_or, fails = oracle(ctx, exe, ctx.rng, (4000 if quick else 60000) * (4 if broken else 1))
     n_simp, sfails = simplify_oracle(ctx, 4000 if quick else 60000)
+    # SurfaceSimplifier model (Model/Solids.lean) vs the real RecursiveSimplifier, bit-exact
+    from checks import c09b
+    sd = c09b.simplify_diff(ctx, 5000 if quick else 100000)
+    if sd.get("error"):
+        broken.append("simplifier correspondence could not run: " + str(sd["error"])[:200])
+    elif sd["diverged"]:
+        broken.append(f"correspondence: simplifier model and RecursiveSimplifier differ on "
+                      f"{len(sd['diverged'])} ops (first: {sd['diverged'][0]['op'][:80]})")
+        diverged += sd["diverged"][:3]
     n_or += n_simp
     fails += sfails
     seen = set()
@@ -383,8 +398,8 @@ def run(ctx):
         "executed at Float equal the C++ results bit-for-bit on every op compared in this run",
         "unit direction vectors; leading coefficient a = 0 or |a| >= min_a = 1e-10 for "
         "solve_general (the tolerance band is a documented approximation)",
-        "involute surface, SurfaceTransformer (rotation of surfaces) and SurfaceSimplifier are not "
-        "modelled in Lean",
+        "involute surface is not modelled in Lean; simplifier theorems assume the soft comparisons "
+        "are exact (ExactForm) or bound the snapping branches only",
     ]
     ctx.coverage.update({
         "evaluations": len(lines) + n_or, "distinct_nontrivial": len(distinct),
@@ -394,6 +409,8 @@ def run(ctx):
                 "answered bad-op; distinct = distinct op lines",
         "op_mix": dict(sorted(kinds.items())), "oracle_cases": n_or, "oracle_failures": len(fails),
         "diverging_ops": len(diverged),
+        "simplifier_diff_ops": sd.get("ops", 0), "simplifier_diff_diverged": len(sd.get("diverged", [])),
+        "simplifier_real_code_crashes_known": sd.get("crashes", 0),
         "samples": [lines[0], lines[1], lines[2]],
         "correspondence_broken": broken,
     })
